@@ -1626,3 +1626,311 @@ package sdf
 //@   let fast = u.Evaluate(p)
 //@   ensures [same-inside-outside-with-a-blend] fast < 0 <==> u.EvaluateSlow(p) < 0
 //@ end
+
+//-----------------------------------------------------------------------------
+// C04: polygon SDF (sdf/mesh2.go, sdf/box2.go)
+//
+// The segment record is well formed when its cached direction and length
+// describe the segment it points at (what newLineInfo establishes).
+
+//@ spec liwf(a *lineInfo) = a.length > 0 && a.unitVector.Length2() == 1 && a.line[1] == a.line[0].Add(a.unitVector.MulScalar(a.length))
+//@ spec segpt(a *lineInfo, s float64) = a.line[0].Add(a.unitVector.MulScalar(s))
+//@ spec cross2(a v2.Vec, b v2.Vec, p v2.Vec) = (b.X - a.X)*(p.Y - a.Y) - (b.Y - a.Y)*(p.X - a.X)
+
+//@ func newLineInfo
+//@   property C04
+//@   id well-formed
+//@   modular
+//@   ensures [a-record] !isnil(r)
+//@   ensures [same-segment] r.line == l
+//@   ensures [record-describes-the-segment] l[0] != l[1] ==> liwf(r)
+//@ end
+
+//@ func lineInfo.minDistance2
+//@   property C04
+//@   id exact
+//@   pure
+//@   forall s float64
+//@   requires liwf(a)
+//@   requires 0 <= s && s <= a.length
+//@   let t = p.Sub(a.line[0]).Dot(a.unitVector)
+//@   let tc = max(0, min(t, a.length))
+//@   ensures [is-the-squared-distance-to-the-nearest-point-of-the-segment] r == p.Sub(segpt(a, tc)).Length2()
+//@   ensures [no-point-of-the-segment-is-nearer] r <= p.Sub(segpt(a, s)).Length2()
+//@   ensures [not-negative] r >= 0
+//@ end
+
+//@ func lineInfo.winding
+//@   property C04
+//@   id crossing-rule
+//@   pure
+//@   requires liwf(a)
+//@   let ay = a.line[0].Y
+//@   let by = a.line[1].Y
+//@   let c = cross2(a.line[0], a.line[1], p)
+//@   ensures [upward-crossing-counts-plus-one] r == 1 <==> (ay <= p.Y && p.Y < by && c > 0)
+//@   ensures [downward-crossing-counts-minus-one] r == -1 <==> (by <= p.Y && p.Y < ay && c < 0)
+//@   ensures [nothing-else-counts] r == 1 || r == -1 || r == 0
+//@   ensures [a-function-of-the-end-points] r == wnof(a.line[0], a.line[1], p)
+//@ end
+
+//@ lemma crossing_side_is_where_the_edge_meets_the_ray(a v2.Vec, b v2.Vec, p v2.Vec)
+//@   property C04
+//@   requires a.Y != b.Y
+//@   let xc = a.X + (p.Y - a.Y)*(b.X - a.X)/(b.Y - a.Y)
+//@   ensures [upward-edge-left-of-means-crossing-to-the-right] a.Y < b.Y ==> (cross2(a, b, p) > 0 <==> xc > p.X)
+//@   ensures [downward-edge-right-of-means-crossing-to-the-right] a.Y > b.Y ==> (cross2(a, b, p) < 0 <==> xc > p.X)
+//@ end
+
+//@ func qtNode.minBoxDist2
+//@   property C04
+//@   id exact
+//@   pure
+//@   forall q v2.Vec
+//@   requires abs(q.X - node.center.X) <= node.halfSide && abs(q.Y - node.center.Y) <= node.halfSide
+//@   ensures [squared-distance-to-the-square] r == sq(max(0, abs(p.X - node.center.X) - node.halfSide)) + sq(max(0, abs(p.Y - node.center.Y) - node.halfSide))
+//@   ensures [no-point-of-the-square-is-nearer] r <= p.Sub(q).Length2()
+//@ end
+
+//@ func qtNode.searchOrder
+//@   property C04
+//@   id permutation
+//@   pure
+//@   ensures [child-indices] 0 <= r[0] && r[0] <= 3 && 0 <= r[1] && r[1] <= 3 && 0 <= r[2] && r[2] <= 3 && 0 <= r[3] && r[3] <= 3
+//@   ensures [every-child-is-visited] (r[0] == 0 || r[1] == 0 || r[2] == 0 || r[3] == 0) && (r[0] == 1 || r[1] == 1 || r[2] == 1 || r[3] == 1) && (r[0] == 2 || r[1] == 2 || r[2] == 2 || r[3] == 2) && (r[0] == 3 || r[1] == 3 || r[2] == 3 || r[3] == 3)
+//@   ensures [the-quadrant-holding-the-point-first] r[0] == ite(p.X >= node.center.X, 1, 0) + ite(p.Y >= node.center.Y, 2, 0)
+//@ end
+
+//@ func qtNode.minLeafDist2
+//@   property C04
+//@   id minimum-over-the-leaf
+//@   pure
+//@   requires forall a *lineInfo :: !isnil(a) ==> liwf(a)
+//@   invariant 0 rangeindex >= -1 && rangeindex < len(node.leaf)
+//@   invariant 0 forall k int :: 0 <= k && k <= rangeindex ==> dd <= node.leaf[k].minDistance2(p)
+//@   invariant 0 exists w int :: dd == math.MaxFloat64 || (0 <= w && w <= rangeindex && dd == node.leaf[w].minDistance2(p))
+//@   ensures [no-segment-of-the-leaf-is-nearer] forall k int :: 0 <= k && k < len(node.leaf) ==> r <= node.leaf[k].minDistance2(p)
+//@   invariant 0 dd >= 0
+//@   ensures [not-negative] r >= 0
+//@   ensures [the-distance-to-one-of-them] exists w int :: r == math.MaxFloat64 || (0 <= w && w < len(node.leaf) && r == node.leaf[w].minDistance2(p))
+//@ end
+
+// Sum of the crossing increments of the first n segments of a leaf / of a mesh,
+// and the smallest squared distance among them (recursive definitions, unfolded on demand).
+//@ spec rec leafwn(node *qtNode, p v2.Vec, n int) int = ite(n <= 0, 0, leafwn(node, p, n - 1) + node.leaf[n - 1].winding(p))
+//@ spec rec meshwn(s *MeshSDF2Slow, p v2.Vec, n int) int = ite(n <= 0, 0, meshwn(s, p, n - 1) + s.mesh[n - 1].winding(p))
+//@ spec rec meshd2(s *MeshSDF2Slow, p v2.Vec, n int) real = ite(n <= 0, math.MaxFloat64, min(meshd2(s, p, n - 1), s.mesh[n - 1].minDistance2(p)))
+
+//@ func qtNode.minDist2
+//@   property C04
+//@   id nil-node
+//@   nil node
+//@   ensures [nothing-to-measure] r == dd
+//@   ensures [not-negative] dd >= 0 ==> r >= 0
+//@ end
+
+//@ func qtNode.minDist2
+//@   property C04
+//@   id one-level
+//@   pure
+//@   requires forall a *lineInfo :: !isnil(a) ==> liwf(a)
+//@   let pruned = node.minBoxDist2(p) >= dd
+//@   let leaf = !isnil(node.leaf)
+//@   let order = node.searchOrder(p)
+//@   ensures [never-larger-than-the-bound-so-far] r <= dd
+//@   ensures [not-negative] dd >= 0 ==> r >= 0
+//@   ensures [a-box-no-nearer-than-the-bound-is-skipped] pruned ==> r == dd && nev("call:qtNode.minDist2") == 0
+//@   ensures [a-leaf-is-measured] !pruned && leaf ==> r == min(dd, node.minLeafDist2(p)) && nev("call:qtNode.minDist2") == 0
+//@   ensures [four-searches] !pruned && !leaf ==> nev("call:qtNode.minDist2") == 4
+//@   ensures [one-per-child-in-search-order] !pruned && !leaf ==> evarg("call:qtNode.minDist2", 0, 0) == node.child[order[0]] && evarg("call:qtNode.minDist2", 1, 0) == node.child[order[1]] && evarg("call:qtNode.minDist2", 2, 0) == node.child[order[2]] && evarg("call:qtNode.minDist2", 3, 0) == node.child[order[3]]
+//@   ensures [for-the-same-point] !pruned && !leaf ==> evarg("call:qtNode.minDist2", 0, 1) == p && evarg("call:qtNode.minDist2", 1, 1) == p && evarg("call:qtNode.minDist2", 2, 1) == p && evarg("call:qtNode.minDist2", 3, 1) == p
+//@   ensures [each-child-starts-from-the-best-so-far] !pruned && !leaf ==> evarg("call:qtNode.minDist2", 0, 2) == dd && evarg("call:qtNode.minDist2", 1, 2) == evres("call:qtNode.minDist2", 0, 0) && evarg("call:qtNode.minDist2", 2, 2) == evres("call:qtNode.minDist2", 1, 0) && evarg("call:qtNode.minDist2", 3, 2) == evres("call:qtNode.minDist2", 2, 0) && r == evres("call:qtNode.minDist2", 3, 0)
+//@ end
+
+//@ func qtNode.winding
+//@   property C04
+//@   id nil-node
+//@   nil node
+//@   ensures [nothing-to-count] r == wn
+//@ end
+
+//@ func qtNode.winding
+//@   property C04
+//@   id one-level
+//@   pure
+//@   requires forall a *lineInfo :: !isnil(a) ==> liwf(a)
+//@   invariant 0 rangeindex >= -1 && rangeindex < len(node.leaf)
+//@   invariant 0 wn == pre(wn) + leafwn(node, p, rangeindex + 1)
+//@   let leaf = !isnil(node.leaf)
+//@   let left = p.X < node.center.X
+//@   let low = p.Y < node.center.Y
+//@   ensures [a-leaf-adds-the-crossings-of-all-its-segments] leaf ==> r == wn + leafwn(node, p, len(node.leaf)) && nev("call:qtNode.winding") == 0
+//@   ensures [left-of-centre-both-children-of-the-row-in-x-order] !leaf && left ==> nev("call:qtNode.winding") == 2 && evarg("call:qtNode.winding", 0, 0) == node.child[ite(low, 0, 2)] && evarg("call:qtNode.winding", 1, 0) == node.child[ite(low, 1, 3)] && evarg("call:qtNode.winding", 0, 2) == wn && evarg("call:qtNode.winding", 1, 2) == evres("call:qtNode.winding", 0, 0) && r == evres("call:qtNode.winding", 1, 0)
+//@   ensures [right-of-centre-only-the-right-child-of-the-row] !leaf && !left ==> nev("call:qtNode.winding") == 1 && evarg("call:qtNode.winding", 0, 0) == node.child[ite(low, 1, 3)] && evarg("call:qtNode.winding", 0, 2) == wn && r == evres("call:qtNode.winding", 0, 0)
+//@   ensures [for-the-same-point] !leaf ==> evarg("call:qtNode.winding", 0, 1) == p
+//@ end
+
+//@ func MeshSDF2Slow.Evaluate
+//@   property C04
+//@   id brute-force-reference
+//@   requires forall a *lineInfo :: !isnil(a) ==> liwf(a)
+//@   invariant 0 rangeindex >= -1 && rangeindex < len(s.mesh)
+//@   invariant 0 wn == meshwn(s, p, rangeindex + 1)
+//@   invariant 0 d2 == meshd2(s, p, rangeindex + 1)
+//@   invariant 0 d2 >= 0
+//@   ensures [distance-to-the-nearest-segment] abs(r) == sqrt(meshd2(s, p, len(s.mesh)))
+//@   ensures [negative-exactly-when-the-winding-number-is-not-zero] (meshwn(s, p, len(s.mesh)) != 0 ==> r <= 0) && (meshwn(s, p, len(s.mesh)) == 0 ==> r >= 0)
+//@ end
+
+//@ func tAppend
+//@   property C04
+//@   id candidate-parameters
+//@   modular
+//@   invariant 0 rangeindex >= -1 && rangeindex < len(set)
+//@   ensures [kept-or-one-more] len(r) == len(set) || (len(r) == len(set) + 1 && r[len(set)] == t && 0 <= t && t <= 1)
+//@   ensures [earlier-values-untouched] forall k int :: 0 <= k && k < len(set) ==> r[k] == set[k]
+//@ end
+
+//@ func Box2.Snap
+//@   property C04
+//@   id summary
+//@   pure
+//@   ensures [returns] true
+//@ end
+
+//@ func Box2.lineIntersect
+//@   property C04
+//@   id clip
+//@   modular
+//@   requires a.Min.X <= a.Max.X && a.Min.Y <= a.Max.Y
+//@   invariant 0 rangeindex >= -1 && rangeindex < len(tSet)
+//@   invariant 0 forall k int :: 0 <= k && k < len(pSet) ==> a.Contains(pSet[k])
+//@   ensures [what-is-kept-lies-in-the-box] !isnil(r) ==> a.Contains(r[0]) && a.Contains(r[1])
+//@   ensures [and-keeps-the-direction-of-the-segment] !isnil(r) ==> r[1].Sub(r[0]).Dot(l[1].Sub(l[0])) >= 0
+//@   ensures [a-horizontal-segment-on-the-top-edge-belongs-to-the-box-above] l[0].Y == l[1].Y && l[0].Y == a.Max.Y ==> isnil(r)
+//@   ensures [a-vertical-segment-on-the-right-edge-belongs-to-the-box-to-the-right] l[0].X == l[1].X && l[0].X == a.Max.X ==> isnil(r)
+//@   ensures [a-segment-inside-the-box-is-kept-whole] a.Contains(l[0]) && a.Contains(l[1]) && !(l[0].Y == l[1].Y && l[0].Y == a.Max.Y) && !(l[0].X == l[1].X && l[0].X == a.Max.X) ==> r == l
+//@ end
+
+//@ func Box2.lineFilter
+//@   property C04
+//@   id clip-all
+//@   modular
+//@   requires a.Min.X <= a.Max.X && a.Min.Y <= a.Max.Y
+//@   invariant 0 rangeindex >= -1 && rangeindex < len(lSet)
+//@   invariant 0 len(out) <= rangeindex + 1
+//@   invariant 0 forall k int :: 0 <= k && k < len(out) ==> a.Contains(out[k][0]) && a.Contains(out[k][1])
+//@   ensures [every-kept-piece-lies-in-the-box] forall k int :: 0 <= k && k < len(r) ==> a.Contains(r[k][0]) && a.Contains(r[k][1])
+//@   ensures [no-more-pieces-than-segments] len(r) <= len(lSet)
+//@ end
+
+//@ func convertLines
+//@   property C04
+//@   id records
+//@   modular
+//@   invariant 0 rangeindex >= -1 && rangeindex < len(lSet) && len(li) == len(lSet)
+//@   invariant 0 forall k int :: 0 <= k && k <= rangeindex ==> !isnil(li[k]) && li[k].line == lSet[k] && (lSet[k][0] != lSet[k][1] ==> liwf(li[k]))
+//@   ensures [one-record-per-segment] len(r) == len(lSet) && !isnil(r)
+//@   ensures [each-describing-its-segment] forall k int :: 0 <= k && k < len(lSet) ==> !isnil(r[k]) && r[k].line == lSet[k] && (lSet[k][0] != lSet[k][1] ==> liwf(r[k]))
+//@ end
+
+// The crossing increment as a function of the segment's end points.
+//@ spec wnof(a v2.Vec, b v2.Vec, p v2.Vec) = ite(a.Y <= p.Y && p.Y < b.Y && cross2(a, b, p) > 0, 1, ite(b.Y <= p.Y && p.Y < a.Y && cross2(a, b, p) < 0, -1, 0))
+
+//@ lemma a_piece_in_another_row_is_not_crossed(a v2.Vec, b v2.Vec, p v2.Vec)
+//@   property C04
+//@   requires (a.Y <= p.Y && b.Y <= p.Y) || (p.Y < a.Y && p.Y < b.Y)
+//@   ensures [no-crossing] wnof(a, b, p) == 0
+//@ end
+
+//@ lemma a_piece_left_of_the_point_is_not_crossed(a v2.Vec, b v2.Vec, p v2.Vec)
+//@   property C04
+//@   requires a.X <= p.X && b.X <= p.X
+//@   ensures [no-crossing] wnof(a, b, p) == 0
+//@ end
+
+//@ lemma a_box_no_nearer_than_the_bound_holds_no_nearer_segment(c v2.Vec, h float64, a v2.Vec, b v2.Vec, lam float64, p v2.Vec)
+//@   property C04
+//@   requires abs(a.X - c.X) <= h && abs(a.Y - c.Y) <= h && abs(b.X - c.X) <= h && abs(b.Y - c.Y) <= h
+//@   requires 0 <= lam && lam <= 1
+//@   let q = a.Add(b.Sub(a).MulScalar(lam))
+//@   assert [the-point-of-the-segment-is-in-the-square] abs(q.X - c.X) <= h && abs(q.Y - c.Y) <= h
+//@   generalize q
+//@   focus the-point-of-the-segment-is-in-the-square
+//@   ensures [box-distance-bounds-segment-distance] sq(max(0, abs(p.X - c.X) - h)) + sq(max(0, abs(p.Y - c.Y) - h)) <= p.Sub(q).Length2()
+//@ end
+
+//@ lemma the_four_quadrants_tile_a_square_about_its_centre(b Box2, q v2.Vec)
+//@   property C04
+//@   requires b.Min.X <= b.Max.X && b.Min.Y <= b.Max.Y
+//@   let c = b.Center()
+//@   ensures [lower-left] b.quad0().Min == b.Min && b.quad0().Max == c
+//@   ensures [lower-right] b.quad1().Min == v2.Vec{c.X, b.Min.Y} && b.quad1().Max == v2.Vec{b.Max.X, c.Y}
+//@   ensures [upper-left] b.quad2().Min == v2.Vec{b.Min.X, c.Y} && b.quad2().Max == v2.Vec{c.X, b.Max.Y}
+//@   ensures [upper-right] b.quad3().Min == c && b.quad3().Max == b.Max
+//@   ensures [nothing-falls-between] b.Contains(q) ==> b.quad0().Contains(q) || b.quad1().Contains(q) || b.quad2().Contains(q) || b.quad3().Contains(q)
+//@ end
+
+//@ func qtBuild
+//@   property C04
+//@   id one-level
+//@   modular
+//@   requires box.Min.X <= box.Max.X && box.Min.Y <= box.Max.Y
+//@   let isleaf = len(lSet) == 1 || level == 3
+//@   ensures [no-segments-no-node] len(lSet) == 0 <==> isnil(r)
+//@   ensures [the-node-records-its-box] !isnil(r) ==> r.level == level && r.box == box && r.center == box.Center() && r.halfSide == 0.5*(box.Max.X - box.Min.X)
+//@   ensures [a-leaf-holds-every-segment-it-was-given] len(lSet) > 0 && isleaf ==> !isnil(r.leaf) && len(r.leaf) == len(lSet) && nev("call:qtBuild") == 0
+//@   ensures [each-with-its-record] forall k int :: len(lSet) > 0 && isleaf && 0 <= k && k < len(lSet) ==> !isnil(r.leaf[k]) && r.leaf[k].line == lSet[k] && (lSet[k][0] != lSet[k][1] ==> liwf(r.leaf[k]))
+//@   ensures [an-inner-node-has-four-children] len(lSet) > 0 && !isleaf ==> isnil(r.leaf) && nev("call:qtBuild") == 4 && nev("call:Box2.lineFilter") == 4
+//@   ensures [one-level-down] len(lSet) > 0 && !isleaf ==> evarg("call:qtBuild", 0, 0) == level + 1 && evarg("call:qtBuild", 1, 0) == level + 1 && evarg("call:qtBuild", 2, 0) == level + 1 && evarg("call:qtBuild", 3, 0) == level + 1
+//@   ensures [over-the-four-quadrants] len(lSet) > 0 && !isleaf ==> evarg("call:qtBuild", 0, 1) == box.quad0() && evarg("call:qtBuild", 1, 1) == box.quad1() && evarg("call:qtBuild", 2, 1) == box.quad2() && evarg("call:qtBuild", 3, 1) == box.quad3()
+//@   ensures [each-clipping-the-same-segments-to-its-quadrant] len(lSet) > 0 && !isleaf ==> evarg("call:Box2.lineFilter", 0, 0) == box.quad0() && evarg("call:Box2.lineFilter", 1, 0) == box.quad1() && evarg("call:Box2.lineFilter", 2, 0) == box.quad2() && evarg("call:Box2.lineFilter", 3, 0) == box.quad3() && evarg("call:Box2.lineFilter", 0, 1) == lSet && evarg("call:Box2.lineFilter", 1, 1) == lSet && evarg("call:Box2.lineFilter", 2, 1) == lSet && evarg("call:Box2.lineFilter", 3, 1) == lSet
+//@   ensures [and-given-the-clipped-pieces] len(lSet) > 0 && !isleaf ==> evarg("call:qtBuild", 0, 2) == evres("call:Box2.lineFilter", 0, 0) && evarg("call:qtBuild", 1, 2) == evres("call:Box2.lineFilter", 1, 0) && evarg("call:qtBuild", 2, 2) == evres("call:Box2.lineFilter", 2, 0) && evarg("call:qtBuild", 3, 2) == evres("call:Box2.lineFilter", 3, 0)
+//@   ensures [children-in-quadrant-order] len(lSet) > 0 && !isleaf ==> r.child[0] == evres("call:qtBuild", 0, 0) && r.child[1] == evres("call:qtBuild", 1, 0) && r.child[2] == evres("call:qtBuild", 2, 0) && r.child[3] == evres("call:qtBuild", 3, 0)
+//@ end
+
+//@ func VertexToLine
+//@   property C04
+//@   id edges
+//@   modular
+//@   let n = len(vertex)
+//@   let closes = closed && !vertex[0].Equals(vertex[n - 1], tolerance)
+//@   invariant 0 rangeindex >= -1 && rangeindex < len(line)
+//@   invariant 0 forall k int :: 0 <= k && k <= rangeindex ==> !isnil(line[k]) && line[k][0] == vertex[k] && line[k][1] == vertex[k + 1]
+//@   ensures [fewer-than-two-vertices-no-edges] n < 2 ==> isnil(r)
+//@   ensures [one-edge-per-consecutive-pair] n >= 2 ==> len(r) == ite(closes, n, n - 1)
+//@   ensures [joining-neighbours] forall k int :: n >= 2 && 0 <= k && k < n - 1 ==> !isnil(r[k]) && r[k][0] == vertex[k] && r[k][1] == vertex[k + 1]
+//@   ensures [and-back-to-the-start-when-closed] n >= 2 && closes ==> !isnil(r[n - 1]) && r[n - 1][0] == vertex[n - 1] && r[n - 1][1] == vertex[0]
+//@ end
+
+//@ func Mesh2D
+//@   property C04
+//@   id quadtree-over-the-bounding-square
+//@   modular
+//@   let n = len(mesh)
+//@   invariant 0 rangeindex >= -1 && rangeindex < len(mesh)
+//@   invariant 0 bb.Min.X <= bb.Max.X && bb.Min.Y <= bb.Max.Y
+//@   invariant 0 forall k int :: 0 <= k && k <= rangeindex ==> bb.Contains(mesh[k][0]) && bb.Contains(mesh[k][1])
+//@   ensures [no-segments-is-an-error] n == 0 <==> !isnil(err)
+//@   ensures [the-box-holds-every-end-point] forall k int :: isnil(err) && 0 <= k && k < n ==> r.BoundingBox().Contains(mesh[k][0]) && r.BoundingBox().Contains(mesh[k][1])
+//@   ensures [one-tree-over-all-segments-from-level-zero] n > 0 ==> nev("call:qtBuild") == 1 && evarg("call:qtBuild", 0, 0) == 0 && evarg("call:qtBuild", 0, 2) == mesh
+//@   ensures [whose-square-contains-the-box] isnil(err) ==> evarg("call:qtBuild", 0, 1).Min.X <= r.BoundingBox().Min.X && evarg("call:qtBuild", 0, 1).Min.Y <= r.BoundingBox().Min.Y && evarg("call:qtBuild", 0, 1).Max.X >= r.BoundingBox().Max.X && evarg("call:qtBuild", 0, 1).Max.Y >= r.BoundingBox().Max.Y && evarg("call:qtBuild", 0, 1).Max.X - evarg("call:qtBuild", 0, 1).Min.X == evarg("call:qtBuild", 0, 1).Max.Y - evarg("call:qtBuild", 0, 1).Min.Y
+//@ end
+
+//@ func Polygon2D
+//@   property C04
+//@   id closed-outline
+//@   let n = len(vertex)
+//@   ensures [fewer-than-three-vertices-is-an-error] n < 3 ==> !isnil(err) && nev("call:Mesh2D") == 0
+//@   ensures [otherwise-the-mesh-of-the-closed-outline] n >= 3 ==> nev("call:VertexToLine") == 1 && evarg("call:VertexToLine", 0, 0) == vertex && evarg("call:VertexToLine", 0, 1) == true && nev("call:Mesh2D") == 1 && evarg("call:Mesh2D", 0, 0) == evres("call:VertexToLine", 0, 0) && r == evres("call:Mesh2D", 0, 0)
+//@ end
+
+//@ func MeshSDF2.Evaluate
+//@   property C04
+//@   id distance-and-sign
+//@   requires forall a *lineInfo :: !isnil(a) ==> liwf(a)
+//@   let d2 = s.qt.minDist2(p, math.MaxFloat64)
+//@   let wn = s.qt.winding(p, 0)
+//@   ensures [distance-found-by-the-tree-search] d2 >= 0 ==> abs(r) == sqrt(d2)
+//@   ensures [negative-exactly-when-the-winding-number-is-not-zero] (wn != 0 ==> r <= 0) && (wn == 0 ==> r >= 0)
+//@ end
